@@ -62,6 +62,23 @@ def check_parse(case, ctx):
             setattr(p, attr, val)
         except Exception:  # noqa: BLE001
             pass
+    # the edited object formats / lists the levels it NOW holds (a loop `path.addr_index = i; by_path(str(path))`)
+    names_ = ["purpose", "coin_type", "account", "chain", "addr_index"]
+    held = []
+    for nm in names_:
+        v_ = getattr(p, nm, None)
+        if v_ is None:
+            break
+        held.append(v_)
+    if held and all(isinstance(v_, int) and 0 <= v_ < 2 ** 32 for v_ in held):
+        st_, txt = call(str, p)
+        st2, lst = call(lambda: list(p.to_list()))
+        if st_ == "exc" or txt != R.fmt_path(held, root):
+            raise Violation("C17/format/stale-after-attribute-edit", "a path parsed from %r whose level attributes were then set to %r "
+                            "formats as %r, expected %s" % (s, held, txt, R.fmt_path(held, root)))
+        if st2 == "exc" or lst != held:
+            raise Violation("C17/format/stale-after-attribute-edit", "a path parsed from %r whose level attributes were then set to %r "
+                            "lists %r" % (s, held, lst))
     for form in ("positional", "keyword"):
         st_, pa = call(Bip32Path.parse, s) if form == "positional" else call(Bip32Path.parse, s=s)
         if st_ == "exc" or list(pa.to_list()) != L:
@@ -108,6 +125,17 @@ def check_lookup(case, ctx):
         if st_ == "exc" or x != ref.xpub(vpub):
             raise Violation("C17/lookup/wrong-node", "%s: by_path(%r) xpub %r" % (tag, s, x))
         expect_eq("C17/lookup/str", "str(by_path(%r))" % s, str(node), R.fmt_path(L, "m"))
+        # the same lookup on a wallet object that is NOT kept alive: only the returned node survives
+        if L:
+            import gc
+            st_, lone = call(lambda: BaseWallet.from_bip39_seed_bytes(seed, case["testnet"]).by_path(s))
+            gc.collect()
+            if st_ == "exc":
+                raise Violation("C17/lookup/raised", "by_path(%r) on a temporary wallet raised %r" % (s, lone))
+            got_l = (call(lone.extended_private_key)[1], call(str, lone)[1])
+            if got_l != (ref.xprv(vprv), R.fmt_path(L, "m")):
+                raise Violation("C17/lookup/node-of-temporary-wallet", "%s: the node by_path(%r) returned from a wallet that was not kept "
+                                "alive serialises as %r / formats as %r, expected %s / %s" % (tag, s, got_l[0], got_l[1], ref.xprv(vprv), R.fmt_path(L, "m")))
         # equals applying each component in order on a fresh wallet
         cur = BaseWallet.from_bip39_seed_bytes(seed, case["testnet"]).master
         for i in L:
